@@ -1739,11 +1739,120 @@ namespace Stmt
 open Body
 
 /-- every increment of a REPEAT in the statement is a non-zero literal -/
+def hasSkip : Stmt → Bool
+  | .skip => true
+  | .seq a b => hasSkip a || hasSkip b
+  | .ite _ t e => hasSkip t || hasSkip e
+  | _ => false          -- a SKIP inside an inner loop ends an iteration of that loop
+
+/-- every increment of a REPEAT in the statement is a non-zero literal, and a loop with an UNTIL control has no SKIP of its
+own in its body (EXPRESS evaluates UNTIL after a SKIP, the written `continue` jumps over the written test) -/
 def wf : Stmt → Bool
   | .seq a b => wf a && wf b
   | .ite _ t e => wf t && wf e
-  | .repeatInc _ _ _ s body => s != 0 && wf body
+  | .repeatInc _ _ _ s _ un body => s != 0 && wf body && (un.isNone || !hasSkip body)
+  | .repeatWhile _ un body => wf body && (un.isNone || !hasSkip body)
   | _ => true
+
+theorem loop_out (run : Env → Option (Env × Out)) (i : String) (b s : Int) :
+    ∀ (n : Nat) (env : Env) (cur : Int) (r : Env × Out), Spec.Stmt.loop run n env i cur b s = some r → r.2 ≠ .skipped := by
+  intro n
+  induction n with
+  | zero => intro env cur r h; simp [Spec.Stmt.loop] at h
+  | succ n ih =>
+    intro env cur r h
+    simp only [Spec.Stmt.loop] at h
+    split at h
+    · injection h with h; subst h; simp
+    · cases hr : run ((i, .int cur) :: env) with
+      | none => simp [hr] at h
+      | some q =>
+        obtain ⟨env', o⟩ := q
+        simp only [hr] at h
+        cases o with
+        | normal => exact ih _ _ _ h
+        | skipped => exact ih _ _ _ h
+        | escaped => injection h with h; subst h; simp
+        | returned v => injection h with h; subst h; simp
+
+theorem loopW_out (run : Env → Option (Env × Out)) :
+    ∀ (n : Nat) (env : Env) (r : Env × Out), Spec.Stmt.loopW run n env = some r → r.2 ≠ .skipped := by
+  intro n
+  induction n with
+  | zero => intro env r h; simp [Spec.Stmt.loopW] at h
+  | succ n ih =>
+    intro env r h
+    simp only [Spec.Stmt.loopW] at h
+    cases hr : run env with
+    | none => simp [hr] at h
+    | some q =>
+      obtain ⟨env', o⟩ := q
+      simp only [hr] at h
+      cases o with
+      | normal => exact ih _ _ h
+      | skipped => exact ih _ _ h
+      | escaped => injection h with h; subst h; simp
+      | returned v => injection h with h; subst h; simp
+
+theorem no_skip : ∀ (f : Nat) (env : Env) (s : Stmt) (r : Env × Out),
+    hasSkip s = false → Spec.Stmt.exec f env s = some r → r.2 ≠ .skipped := by
+  intro f
+  induction f with
+  | zero => intro env s r _ h; simp [Spec.Stmt.exec] at h
+  | succ f ih =>
+    intro env s r hn h
+    cases s with
+    | nop => simp only [Spec.Stmt.exec, Option.some.injEq] at h; subst h; simp
+    | seq a b =>
+      simp only [hasSkip, Bool.or_eq_false_iff] at hn
+      simp only [Spec.Stmt.exec] at h
+      cases hra : Spec.Stmt.exec f env a with
+      | none => simp [hra] at h
+      | some q =>
+        obtain ⟨env', o⟩ := q
+        have hq := ih env a (env', o) hn.1 hra
+        simp only [hra] at h
+        cases o with
+        | normal => exact ih env' b r hn.2 h
+        | skipped => exact absurd rfl hq
+        | escaped => injection h with h; subst h; simp
+        | returned v => injection h with h; subst h; simp
+    | assign x e =>
+      simp only [Spec.Stmt.exec] at h
+      cases hv : Spec.Body.eval env e with
+      | none => simp [hv] at h
+      | some v => simp only [hv, Option.map_some, Option.some.injEq] at h; subst h; simp
+    | ite c t e =>
+      simp only [hasSkip, Bool.or_eq_false_iff] at hn
+      simp only [Spec.Stmt.exec] at h
+      cases hv : Spec.Body.eval env c with
+      | none => simp [hv] at h
+      | some v =>
+        cases v with
+        | int n => simp [hv] at h
+        | bool bv => cases bv <;> simp only [hv] at h <;> first | exact ih env t r hn.1 h | exact ih env e r hn.2 h
+    | repeatInc i a b st wh un body =>
+      simp only [Spec.Stmt.exec] at h
+      cases hva : Spec.Body.eval env a with
+      | none => simp [hva] at h
+      | some va =>
+        cases hvb : Spec.Body.eval env b with
+        | none => cases va <;> simp [hva, hvb] at h
+        | some vb =>
+          cases va with
+          | bool _ => simp [hva, hvb] at h
+          | int ia =>
+            cases vb with
+            | bool _ => simp [hva, hvb] at h
+            | int ib => simp only [hva, hvb] at h; exact loop_out _ i ib st f env ia r h
+    | repeatWhile wh un body => simp only [Spec.Stmt.exec] at h; exact loopW_out _ f env r h
+    | skip => simp [hasSkip] at hn
+    | escape => simp only [Spec.Stmt.exec, Option.some.injEq] at h; subst h; simp
+    | ret e =>
+      simp only [Spec.Stmt.exec] at h
+      cases hv : Spec.Body.eval env e with
+      | none => simp [hv] at h
+      | some v => simp only [hv, Option.map_some, Option.some.injEq] at h; subst h; simp
 
 theorem expr_value (env : Env) (e : Expr) (v : V) (p : PyExpr)
     (hs : Spec.Body.eval env e = some v) (hr : readWith exprCfg e = some p) :
@@ -1812,6 +1921,102 @@ theorem loop_sim (runS runP : Env → Option (Env × Out))
           | skipped => simp only at h ⊢; have := ih env' (cur + s) r h; simpa [hp] using this
           | escaped => simp only at h ⊢; injection h with h; subst h; rfl
           | returned v => simp only at h ⊢; injection h with h; subst h; rfl
+
+theorem trOpt_some {o : Option Expr} {po : Option PyExpr} (h : trOpt o = some po) :
+    (o = none ∧ po = none) ∨ ∃ e p, o = some e ∧ po = some p ∧ readWith exprCfg e = some p := by
+  cases o with
+  | none => simp [trOpt] at h; exact Or.inl ⟨rfl, h.symm⟩
+  | some e =>
+    simp only [trOpt] at h
+    cases hp : readWith exprCfg e with
+    | none => simp [hp] at h
+    | some p => simp only [hp, Option.map_some, Option.some.injEq] at h; exact Or.inr ⟨e, p, rfl, h.symm, hp⟩
+
+theorem until_sim (un : Option Expr) (pu : Option PyExpr) (hu : trOpt un = some pu) (env : Env) (r : Env × Out)
+    (h : Spec.Stmt.untilS un env = some r) : pyUntil pu (instanceOf env) = some (instanceOf r.1, r.2) := by
+  rcases trOpt_some hu with ⟨rfl, rfl⟩ | ⟨u, p, rfl, rfl, hp⟩
+  · simp only [Spec.Stmt.untilS, Option.some.injEq] at h; subst h; rfl
+  · simp only [Spec.Stmt.untilS, Spec.Stmt.evalBool] at h
+    cases hv : Spec.Body.eval env u with
+    | none => simp [hv] at h
+    | some v =>
+      cases v with
+      | int n => simp [hv] at h
+      | bool bv =>
+        simp only [hv, Option.map_some, Option.some.injEq] at h; subst h
+        simp only [pyUntil, expr_value env u (.bool bv) p hv hp, Option.map_some, V.truthy]
+        cases bv <;> rfl
+
+theorem afterBody_sim (un : Option Expr) (pu : Option PyExpr) (hu : trOpt un = some pu)
+    (q : Env × Out) (hskip : un = none ∨ q.2 ≠ .skipped) (r : Env × Out)
+    (h : Spec.Stmt.afterBody un (some q) = some r) :
+    pyAfterBody pu (some (instanceOf q.1, q.2)) = some (instanceOf r.1, r.2) := by
+  obtain ⟨env', o⟩ := q
+  cases o with
+  | normal => simp only [Spec.Stmt.afterBody] at h; simp only [pyAfterBody]; exact until_sim un pu hu env' r h
+  | skipped =>
+    rcases hskip with rfl | hs
+    · simp only [Spec.Stmt.afterBody, Option.isNone_none, if_true, Option.some.injEq] at h; subst h; rfl
+    · exact absurd rfl hs
+  | escaped => simp only [Spec.Stmt.afterBody, Option.some.injEq] at h; subst h; rfl
+  | returned v => simp only [Spec.Stmt.afterBody, Option.some.injEq] at h; subst h; rfl
+
+theorem pass_sim (wh un : Option Expr) (pw pu : Option PyExpr) (hw : trOpt wh = some pw) (hu : trOpt un = some pu)
+    (runS runP : Env → Option (Env × Out))
+    (hrun : ∀ env r, runS env = some r → runP (instanceOf env) = some (instanceOf r.1, r.2))
+    (hskip : un = none ∨ ∀ env r, runS env = some r → r.2 ≠ .skipped)
+    (env : Env) (r : Env × Out) (h : Spec.Stmt.pass wh un runS env = some r) :
+    pyPass pw pu runP (instanceOf env) = some (instanceOf r.1, r.2) := by
+  have hgo : ∀ r, Spec.Stmt.afterBody un (runS env) = some r →
+      pyAfterBody pu (runP (instanceOf env)) = some (instanceOf r.1, r.2) := by
+    intro r h
+    cases hr : runS env with
+    | none => simp [hr, Spec.Stmt.afterBody] at h
+    | some q =>
+      rw [hrun env q hr]
+      rw [hr] at h
+      exact afterBody_sim un pu hu q (hskip.imp id (fun hs => hs env q hr)) r h
+  rcases trOpt_some hw with ⟨rfl, rfl⟩ | ⟨w, p, rfl, rfl, hp⟩
+  · simp only [Spec.Stmt.pass] at h
+    simp only [pyPass]
+    exact hgo r h
+  · simp only [Spec.Stmt.pass, Spec.Stmt.evalBool] at h
+    simp only [pyPass]
+    cases hv : Spec.Body.eval env w with
+    | none => simp [hv] at h
+    | some v =>
+      cases v with
+      | int n => simp [hv] at h
+      | bool bv =>
+        simp only [expr_value env w (.bool bv) p hv hp]
+        cases bv with
+        | true => simp only [hv] at h; simp only [V.truthy, if_true]; exact hgo r h
+        | false =>
+          simp only [hv, Option.some.injEq] at h; subst h
+          simp only [V.truthy, Bool.false_eq_true, if_false]
+
+theorem loopW_sim (runS runP : Env → Option (Env × Out))
+    (hrun : ∀ env r, runS env = some r → runP (instanceOf env) = some (instanceOf r.1, r.2)) :
+    ∀ (n : Nat) (env : Env) (r : Env × Out), Spec.Stmt.loopW runS n env = some r →
+      pyWhile runP n (instanceOf env) = some (instanceOf r.1, r.2) := by
+  intro n
+  induction n with
+  | zero => intro env r h; simp [Spec.Stmt.loopW] at h
+  | succ n ih =>
+    intro env r h
+    simp only [Spec.Stmt.loopW] at h
+    simp only [pyWhile]
+    cases hr : runS env with
+    | none => simp [hr] at h
+    | some q =>
+      obtain ⟨env', o⟩ := q
+      rw [hrun env (env', o) hr]
+      simp only [hr] at h
+      cases o with
+      | normal => simp only at h ⊢; exact ih env' r h
+      | skipped => simp only at h ⊢; exact ih env' r h
+      | escaped => simp only at h ⊢; injection h with h; subst h; rfl
+      | returned v => simp only at h ⊢; injection h with h; subst h; rfl
 
 /-- regenerated tie: `STATEMENTPrint` writes `continue` for SKIP (fixes/C18-21) -/
 theorem tie_skip : skipIsContinue = true := rfl
@@ -1891,8 +2096,8 @@ theorem stmt_sim : ∀ (f : Nat) (env : Env) (s : Stmt) (p : PyStmt) (r : Env ×
                 | false =>
                   simp only [hv] at h
                   simp only [V.truthy, Bool.false_eq_true, if_false]; exact ih env e pe r hw.2 hpe h
-    | repeatInc i a b st body =>
-      simp only [wf, Bool.and_eq_true, bne_iff_ne, ne_eq] at hw
+    | repeatInc i a b st wh un body =>
+      simp only [wf, Bool.and_eq_true, bne_iff_ne, ne_eq, Bool.or_eq_true, Option.isNone_iff_eq_none, Bool.not_eq_eq_eq_not, Bool.not_true] at hw
       simp only [tr, Option.bind_eq_bind, Option.pure_def] at htr
       cases hpa : readWith exprCfg a with
       | none => simp [hpa] at htr
@@ -1903,25 +2108,54 @@ theorem stmt_sim : ∀ (f : Nat) (env : Env) (s : Stmt) (p : PyStmt) (r : Env ×
           cases hpbody : tr body with
           | none => simp [hpa, hpb, hpbody] at htr
           | some pbody =>
-            simp only [hpa, hpb, hpbody, Option.bind_some, Option.some.injEq] at htr; subst htr
+            cases hpw : trOpt wh with
+            | none => simp [hpa, hpb, hpbody, hpw] at htr
+            | some pw =>
+              cases hpu : trOpt un with
+              | none => simp [hpa, hpb, hpbody, hpw, hpu] at htr
+              | some pu =>
+                simp only [hpa, hpb, hpbody, hpw, hpu, Option.bind_some, Option.some.injEq] at htr; subst htr
+                simp only [Spec.Stmt.exec] at h
+                cases hva : Spec.Body.eval env a with
+                | none => simp [hva] at h
+                | some va =>
+                  cases hvb : Spec.Body.eval env b with
+                  | none => cases va <;> simp [hva, hvb] at h
+                  | some vb =>
+                    cases va with
+                    | bool _ => simp [hva, hvb] at h
+                    | int ia =>
+                      cases vb with
+                      | bool _ => simp [hva, hvb] at h
+                      | int ib =>
+                        simp only [hva, hvb] at h
+                        simp only [pyExec, expr_value env a (.int ia) pa hva hpa, expr_value env b (.int ib) pb hvb hpb, V.toInt,
+                          stopWritten, C18_tie_repeat_bound_inclusive, if_true]
+                        refine loop_sim _ _ (fun env' r' hr' => pass_sim wh un pw pu hpw hpu _ _
+                          (fun env'' r'' hr'' => ih env'' body pbody r'' hw.1.2 hpbody hr'') ?_ env' r' hr') i ib st hw.1.1 f env ia r h
+                        rcases hw.2 with hu | hu
+                        · exact Or.inl hu
+                        · exact Or.inr (fun env'' r'' hr'' => no_skip f env'' body r'' hu hr'')
+    | repeatWhile wh un body =>
+      simp only [wf, Bool.and_eq_true, Bool.or_eq_true, Option.isNone_iff_eq_none, Bool.not_eq_eq_eq_not, Bool.not_true] at hw
+      simp only [tr, Option.bind_eq_bind, Option.pure_def] at htr
+      cases hpbody : tr body with
+      | none => simp [hpbody] at htr
+      | some pbody =>
+        cases hpw : trOpt wh with
+        | none => simp [hpbody, hpw] at htr
+        | some pw =>
+          cases hpu : trOpt un with
+          | none => simp [hpbody, hpw, hpu] at htr
+          | some pu =>
+            simp only [hpbody, hpw, hpu, Option.bind_some, Option.some.injEq] at htr; subst htr
             simp only [Spec.Stmt.exec] at h
-            cases hva : Spec.Body.eval env a with
-            | none => simp [hva] at h
-            | some va =>
-              cases hvb : Spec.Body.eval env b with
-              | none => cases va <;> simp [hva, hvb] at h
-              | some vb =>
-                cases va with
-                | bool _ => simp [hva, hvb] at h
-                | int ia =>
-                  cases vb with
-                  | bool _ => simp [hva, hvb] at h
-                  | int ib =>
-                    simp only [hva, hvb] at h
-                    simp only [pyExec, expr_value env a (.int ia) pa hva hpa, expr_value env b (.int ib) pb hvb hpb, V.toInt,
-                      stopWritten, C18_tie_repeat_bound_inclusive, if_true]
-                    exact loop_sim (fun env' => Spec.Stmt.exec f env' body) (fun env' => pyExec f env' pbody)
-                      (fun env' r' hr' => ih env' body pbody r' hw.2 hpbody hr') i ib st hw.1 f env ia r h
+            simp only [pyExec]
+            refine loopW_sim _ _ (fun env' r' hr' => pass_sim wh un pw pu hpw hpu _ _
+              (fun env'' r'' hr'' => ih env'' body pbody r'' hw.1 hpbody hr'') ?_ env' r' hr') f env r h
+            rcases hw.2 with hu | hu
+            · exact Or.inl hu
+            · exact Or.inr (fun env'' r'' hr'' => no_skip f env'' body r'' hu hr'')
     | skip =>
       simp only [tr, tie_skip, if_true, Option.some.injEq] at htr; subst htr
       simp only [Spec.Stmt.exec, Option.some.injEq] at h; subst h
@@ -1950,6 +2184,11 @@ theorem tr_isSome : ∀ s : Stmt, (tr s).isSome = true := by
     cases h : readWith exprCfg e with
     | none => rw [h] at this; cases this
     | some p => exact ⟨p, rfl⟩
+  have ho : ∀ o : Option Expr, ∃ p, trOpt o = some p := by
+    intro o
+    cases o with
+    | none => exact ⟨none, rfl⟩
+    | some e => obtain ⟨p, hp⟩ := he e; exact ⟨some p, by simp [trOpt, hp]⟩
   intro s
   induction s with
   | nop => rfl
@@ -1967,12 +2206,20 @@ theorem tr_isSome : ∀ s : Stmt, (tr s).isSome = true := by
     | some pt => cases hee : tr e with
       | none => rw [hee] at ihe; cases ihe
       | some pe => simp [tr, hc, ht, hee]
-  | repeatInc i a b st body ih =>
+  | repeatInc i a b st wh un body ih =>
     obtain ⟨pa, ha⟩ := he a
     obtain ⟨pb, hb⟩ := he b
+    obtain ⟨pw, hw⟩ := ho wh
+    obtain ⟨pu, hu⟩ := ho un
     cases hbody : tr body with
     | none => rw [hbody] at ih; cases ih
-    | some pbody => simp [tr, ha, hb, hbody]
+    | some pbody => simp [tr, ha, hb, hbody, hw, hu]
+  | repeatWhile wh un body ih =>
+    obtain ⟨pw, hw⟩ := ho wh
+    obtain ⟨pu, hu⟩ := ho un
+    cases hbody : tr body with
+    | none => rw [hbody] at ih; cases ih
+    | some pbody => simp [tr, hbody, hw, hu]
   | skip => simp [tr]
   | escape => rfl
   | ret e => obtain ⟨p, hp⟩ := he e; simp [tr, hp]
@@ -1986,8 +2233,9 @@ theorem C18_tie_skip_is_continue : skipIsContinue = true := rfl
 theorem C18_function_statements_are_python (s : Stmt.Stmt) : (Stmt.tr s).isSome = true := Stmt.tr_isSome s
 
 /-- **Translation correctness of FUNCTION bodies** for the fragment null statement, sequence, assignment, IF [ELSE], REPEAT
-with an increment control (non-zero literal increment, no WHILE / UNTIL control), SKIP, ESCAPE, RETURN over the expression
-fragment: whenever the reference semantics (ISO 10303-11 clause 13, `Spec.Stmt.exec`) runs the statement from an
+with any combination of the increment (non-zero literal increment), WHILE and UNTIL controls, SKIP, ESCAPE, RETURN over the
+expression fragment (`wf`: no SKIP of its own in the body of a loop that has an UNTIL control — there EXPRESS evaluates
+UNTIL after the SKIP and the written `continue` jumps over the written test): whenever the reference semantics (ISO 10303-11 clause 13, `Spec.Stmt.exec`) runs the statement from an
 environment to a result — a final environment and the way it ends (normally, by SKIP / ESCAPE travelling to the enclosing
 loop, or by RETURN with a value) — the Python statements `STATEMENTPrint` / `LOOPpyout` write for it (`Stmt.tr`), run by
 Python's semantics (`Stmt.pyExec`) from the same environment under the escaped names, reach exactly that result, with the
@@ -2011,8 +2259,8 @@ RETURN (r)` from r = 0 returns 4 in EXPRESS and 1 in the Python that was written
 theorem C18_legacy_skip_is_break_witness :
     let cond : Body.Expr := .bin .eq (.attr "i") (.int 2)
     let add : Body.Expr := .bin .plus (.attr "r") (.attr "i")
-    let src : Stmt.Stmt := .seq (.repeatInc "i" (.int 1) (.int 3) 1 (.seq (.ite cond .skip .nop) (.assign "r" add))) (.ret (.attr "r"))
-    let old : Stmt.PyStmt := .seq (.forRange "i" (.int 1) (.int 3) 1
+    let src : Stmt.Stmt := .seq (.repeatInc "i" (.int 1) (.int 3) 1 none none (.seq (.ite cond .skip .nop) (.assign "r" add))) (.ret (.attr "r"))
+    let old : Stmt.PyStmt := .seq (.forRange "i" (.int 1) (.int 3) 1 none none
         (.seq (.ite (.bin .eq (.attr "i") (.int 2)) .break_ .pass) (.assign "r" (.bin .plus (.attr "r") (.attr "i"))))) (.ret (.attr "r"))
     (Spec.Stmt.exec 20 [("r", .int 0)] src).map (·.2) = some (.returned (.int 4)) ∧
     (Stmt.pyExec 20 [("r", .int 0)] old).map (·.2) = some (.returned (.int 1)) := by
